@@ -140,7 +140,7 @@ fn rawf(ty: u8, flags: u8, stream: u32, payload: Vec<u8>) -> PStep {
 const STATES: &[&str] = &["none", "open", "half-closed-remote", "closed", "peer-reset"];
 
 /// Returns the catalogue size so generators / evidence can report coverage.
-pub const N_ITEMS_SERVER: usize = 82;
+pub const N_ITEMS_SERVER: usize = 85;
 
 #[allow(clippy::too_many_lines)]
 fn server_item(k: usize, t: &mut Tape, target: u32, state: &str, next_id: u32, cfg: &Cfg) -> Option<(Vec<PStep>, Inject)> {
@@ -333,6 +333,21 @@ fn server_item(k: usize, t: &mut Tape, target: u32, state: &str, next_id: u32, c
                 };
                 (vec![bad, PStep::Barrier, PStep::Yield(20), late], mk("late-frame-on-rejected-request", Class::Legal, idle + 4, "§5.4.2 after sending RST_STREAM an endpoint MUST be prepared to receive frames the peer sent before it arrived (here: for a request it rejected as malformed)", vec![idle + 4]))
             }
+        }
+        82 => {
+            // a header block cut into many small CONTINUATION frames (8–20 of them)
+            let n = 8 + t.below(13);
+            let splits: Vec<usize> = (1..=n).collect();
+            (vec![PStep::Headers { stream: idle, fields: req_fields(idle, "GET"), end_stream: true, splits, pad: None, prio: None, enc: 0 }], mk("header-block-in-many-continuation-frames", Class::Legal, 0, "§6.10 any number of CONTINUATION frames can be sent", vec![]))
+        }
+        83 | 84 => {
+            // the truncated block of row 27, but its last fragment is a CONTINUATION frame (k = 84: an empty one)
+            let block = vec![0x82u8, 0x87, 0x84, 0x41, 0x05, b'a'];
+            let cut = if k == 83 { 5 } else { 6 };
+            (
+                vec![rawf(wire::T_HEADERS, 0x1, idle, block[..cut].to_vec()), rawf(wire::T_CONT, 0x4, idle, block[cut..].to_vec())],
+                mk("hpack-truncated-block-ending-in-continuation", Class::Conn, 0, "§4.3 truncated field block (a field block that cannot be decoded is a connection error COMPRESSION_ERROR)", vec![idle]),
+            )
         }
         77 => (vec![fr(Frame::Settings { ack: false, params: vec![(3, 0), (4, 0)] }), fr(Frame::Settings { ack: false, params: vec![(3, 100), (4, 65535)] })], mk("settings-zero-limits-then-restore", Class::Legal, 0, "§6.5.2 zero is a valid value for MAX_CONCURRENT_STREAMS and INITIAL_WINDOW_SIZE", vec![])),
         _ => return None,
